@@ -792,3 +792,78 @@ def rule_emission_first(ctx: Ctx) -> None:
     after = [st for st in fn.body if st.lineno > lp.lineno and builds(st, "MeasurementCNOTandReset")]
     if not after and not inside:
         raise AnalysisError("initialization: the measure-and-reset block was not found")
+
+
+# --------------------------------------------------------------------------- score.fresh / keys.cover
+
+
+def rule_score_fresh(ctx: Ctx) -> None:
+    """score.fresh: in the generation loop of EvolutionarySolver.solve every population member is transformed in place, so its stored
+    score is stale from that moment on: on *every* path through the member loop the circuit is compiled, scored and stored again.  A
+    `continue` that skips the re-evaluation because "nothing changed" relies on a proxy for "unchanged" (node count) that the
+    transformations do not honour (add_* fall back to replace_*)."""
+    from .. import flow as _flow
+    repo = ctx.repo
+    m = repo.module(EVO)
+    fn = repo.anchor(EVO, "EvolutionarySolver.solve")
+    ctx.touch(m, fn)
+    stores = [a for a in ast.walk(fn) if isinstance(a, ast.Assign) and isinstance(a.targets[0], ast.Subscript) and norm(a.targets[0].value) == "population"
+              and isinstance(a.value, ast.Tuple) and len(a.value.elts) == 2]
+    if len(stores) != 1:
+        raise AnalysisError("solve(): the store `population[j] = (score, circuit)` was not found")
+    st = stores[0]
+    loop = next((a for a in _ancestors(st) if isinstance(a, ast.For)), None)
+    if loop is None:
+        raise AnalysisError("solve(): member loop not found")
+    if _flow.must_pass(loop.body, lambda nd: nd is st):
+        ctx.ok("score.fresh", m, st, what="every transformed member is re-scored and stored on every path")
+    else:
+        skip = next((x for x in ast.walk(loop) if isinstance(x, (ast.Continue, ast.Break)) and next((a for a in _ancestors(x) if isinstance(a, (ast.For, ast.While))), None) is loop), None)
+        ctx.fail("score.fresh", m, skip or st,
+                 "solve() has a path through the member loop that transforms the circuit but does not store a new (score, circuit) pair"
+                 + (f" (`{short(skip)}` at line {skip.lineno})" if skip is not None else "") +
+                 ": the member keeps the score of the circuit it was before the transformation, and that pair can enter the hall of fame",
+                 func="EvolutionarySolver.solve", construct="solve: member re-evaluation skipped on some path")
+
+
+def _ancestors(n):
+    p_ = parent(n)
+    while p_ is not None:
+        yield p_
+        p_ = parent(p_)
+
+
+def rule_noise_keys_cover(ctx: Ctx) -> None:
+    """keys.cover: the noise-model mapping of the solvers has one section per kind of gate — the class reads "e", "p", "ee" and "ep".
+    A summary of the mapping computed over a literal tuple of section names (is there any noise at all?) has to name all of them;
+    a subset silently treats noise on the missing sections as absent."""
+    repo = ctx.repo
+    m = repo.module(EVO)
+    ci = repo.cls("EvolutionarySolver", EVO)
+    used = set()
+    for fn in ci.methods().values():
+        for x in ast.walk(fn):
+            if isinstance(x, ast.Subscript) and isinstance(x.slice, ast.Constant) and isinstance(x.slice.value, str) \
+                    and isinstance(x.value, (ast.Name, ast.Attribute)) and norm(x.value).endswith("noise_model_mapping"):
+                used.add(x.slice.value)
+    if len(used) < 3:
+        raise AnalysisError("EvolutionarySolver: sections of noise_model_mapping not found")
+    n = 0
+    for fn in ci.methods().values():
+        for it in [g for c in ast.walk(fn) if isinstance(c, (ast.GeneratorExp, ast.ListComp, ast.SetComp)) for g in c.generators] + \
+                  [l for l in ast.walk(fn) if isinstance(l, ast.For)]:
+            seq = it.iter
+            if isinstance(seq, (ast.Tuple, ast.List, ast.Set)) and seq.elts and all(isinstance(e, ast.Constant) and isinstance(e.value, str) for e in seq.elts):
+                keys = {e.value for e in seq.elts}
+                body = it if isinstance(it, ast.For) else parent(it)
+                if keys <= used and any("noise_model_mapping" in norm(y) for y in ast.walk(body)) and len(keys) >= 2:
+                    n += 1
+                    ctx.touch(m, fn)
+                    if keys == used:
+                        ctx.ok("keys.cover", m, seq, what=f"all sections {sorted(used)}")
+                    else:
+                        ctx.fail("keys.cover", m, seq,
+                                 f"`{short(seq)}` summarises the noise mapping over {sorted(keys)} only; the class also reads the sections {sorted(used - keys)}: "
+                                 f"a mapping whose noise sits only there is treated as noise-free", func=f"EvolutionarySolver.{fn.name}",
+                                 construct=f"EvolutionarySolver.{fn.name}: mapping summarised over {sorted(keys)}")
+    ctx.ok_abstract("keys.cover", f"sections read by the class: {sorted(used)}; {n} literal section lists checked")
